@@ -143,26 +143,28 @@ StartInitDo(s) == [s EXCEPT !.srv.initOut = "pending", !.srv.phase = "init", !.p
 InitLockEn(s) == s.pcI.pc = "spawned" /\ s.hm = "free"
 InitLockDo(s) == InitBegin([s EXCEPT !.hm = "init"], "init")
 
-\* d2: create and launch the next external extension (observable: Exec, unless creation fails)
-LaunchExtEn(s) == s.pcI.pc = "d2" /\ Len(s.toExec) > 0
+\* d2: create the agent object of the next external extension (registration of that name is possible from
+\* now on) ...
+CreateExtEn(s) == s.pcI.pc = "d2" /\ Len(s.toExec) > 0
+CreateExtDo(s) ==
+    LET e == Head(s.toExec) IN
+    IF ~s.regOpen THEN InitFail([s EXCEPT !.toExec = Tail(@)], "ErrRegistrationServiceOff")
+    ELSE IF e \in Agents(s) THEN InitFail([s EXCEPT !.toExec = Tail(@)], "ErrAgentNameCollision")
+    ELSE IF Cardinality(Agents(s)) + 1 > MaxAgents
+    THEN InitFail([WithAgent([s EXCEPT !.toExec = Tail(@)], e, NewAgent("ext", "LaunchError", "TooManyExtensions", s.gen))
+                      EXCEPT !.firstFatal = FF(@, "Extension.LaunchError")], "ErrTooManyExtensions")
+    ELSE [WithAgent(s, e, NewAgent("ext", "Started", "", s.gen)) EXCEPT !.pcI.pc = "d2x"]
+
+\* ... and launch its process (observable: Exec)
+LaunchExtEn(s) == s.pcI.pc = "d2x" /\ Len(s.toExec) > 0
 LaunchExtDo(s) ==
     LET e  == Head(s.toExec)
-        s1 == [s EXCEPT !.toExec = Tail(@)]
-    IN IF ~s.regOpen THEN InitFail(s1, "ErrRegistrationServiceOff")
-       ELSE IF e \in Agents(s) THEN InitFail(s1, "ErrAgentNameCollision")
-       ELSE IF Cardinality(Agents(s)) + 1 > MaxAgents
-       THEN InitFail([WithAgent(s1, e, NewAgent("ext", "LaunchError", "TooManyExtensions", s.gen))
-                         EXCEPT !.firstFatal = FF(@, "Extension.LaunchError")], "ErrTooManyExtensions")
-       ELSE IF e \in s.launchFail
-       THEN InitFail([WithAgent(s1, e, NewAgent("ext", "LaunchError", "UnknownError", s.gen))
-                         EXCEPT !.firstFatal = FF(@, "Extension.LaunchError")], "launch")
-       ELSE WithProc(WithAgent(s1, e, NewAgent("ext", "Started", "", s.gen)), <<e, s.gen>>,
-                     [st |-> "running", ev |-> "none", ch |-> "open"])
-\* does this step produce an Exec request, and with which result?
-LaunchExtExec(s) ==
-    LET e == Head(s.toExec) IN
-    IF ~s.regOpen \/ e \in Agents(s) \/ Cardinality(Agents(s)) + 1 > MaxAgents THEN "none"
-    ELSE IF e \in s.launchFail THEN "launch" ELSE "ok"
+        s1 == [s EXCEPT !.toExec = Tail(@), !.pcI.pc = "d2"]
+    IN IF e \in s.launchFail
+       THEN InitFail([s1 EXCEPT !.ag[e].st = "LaunchError", !.ag[e].err = "UnknownError",
+                                !.firstFatal = FF(@, "Extension.LaunchError")], "launch")
+       ELSE WithProc(s1, <<e, s.gen>>, [st |-> "running", ev |-> "none", ch |-> "open"])
+LaunchExtExec(s) == IF Head(s.toExec) \in s.launchFail THEN "launch" ELSE "ok"
 
 \* d3+d4: all external extensions registered -> create, register and launch the runtime
 LaunchRuntimeEn(s) == s.pcI.pc = "d2" /\ Len(s.toExec) = 0 /\ GCond(s.ig.extReg)
@@ -437,9 +439,14 @@ ResetClearDo(s, x) ==
     [s EXCEPT !.firstFatal = "none", !.renderer = "none", !.initDone = FALSE,
               !.rt = "none", !.rtFlag = FALSE, !.ag = <<>>, !.regOpen = TRUE, !.cancelOnce = FALSE,
               !.ig = ClearAll(@), !.vg = ClearAll(@), !.rs[x].pc = "r4",
-              \* handlers parked on objects of the old generation are never woken again
-              !.calls = [c \in DOMAIN s.calls |-> IF s.calls[c].st = "parked"
-                                                  THEN [s.calls[c] EXCEPT !.st = "orphan"] ELSE s.calls[c]]]
+              \* handlers parked on objects of the old generation are never woken again ("orphan"), unless their
+              \* object had already been released: those wake up later and render whatever is current ("zombie")
+              !.calls = [c \in DOMAIN s.calls |->
+                           IF s.calls[c].st # "parked" THEN s.calls[c]
+                           ELSE IF (s.calls[c].who = "rt" /\ s.rtFlag)
+                                   \/ (s.calls[c].who \in Agents(s) /\ s.ag[s.calls[c].who].flag)
+                                THEN [s.calls[c] EXCEPT !.st = "zombie"]
+                                ELSE [s.calls[c] EXCEPT !.st = "orphan"]]]
 
 \* Server.Clear: drain InvokeDoneChan, Release; phase idle; the message on ResetDoneChan is taken by
 \* whichever Reset call is waiting
@@ -755,11 +762,15 @@ EffectDo(s, c) ==
 
 \* a parked poll is released (Release: flag := TRUE, Signal)
 WakeEn(s, c) ==
-    /\ c \in DOMAIN s.calls /\ s.calls[c].st = "parked"
-    /\ IF s.calls[c].who = "rt" THEN s.rtFlag
-       ELSE s.calls[c].who \in Agents(s) /\ s.ag[s.calls[c].who].flag
+    /\ c \in DOMAIN s.calls
+    /\ \/ s.calls[c].st = "zombie"
+       \/ /\ s.calls[c].st = "parked"
+          /\ IF s.calls[c].who = "rt" THEN s.rtFlag
+             ELSE s.calls[c].who \in Agents(s) /\ s.ag[s.calls[c].who].flag
 WakeDo(s, c) ==
-    IF s.calls[c].who = "rt" THEN RtAfterWake([s EXCEPT !.rtFlag = FALSE], c)
+    IF s.calls[c].st = "zombie"
+    THEN Answer(s, c, IF s.calls[c].who = "rt" THEN RenderRt(s) ELSE RenderAg(s))    \* acts on objects nobody refers to
+    ELSE IF s.calls[c].who = "rt" THEN RtAfterWake([s EXCEPT !.rtFlag = FALSE], c)
     ELSE AgAfterWake([s EXCEPT !.ag[s.calls[c].who].flag = FALSE], c, s.calls[c].who)
 
 \* the client reads the answer (observable)
@@ -784,7 +795,7 @@ IssueDo(s, c, call) == [WithCall(s, c, call) EXCEPT !.ncalls = @ + 1]
 (* explained away as "the timer happened to fire first".                   *)
 
 Urgent(s) ==
-    \/ InitLockEn(s) \/ LaunchExtEn(s) \/ LaunchRuntimeEn(s) \/ AfterRuntimeReadyEn(s) \/ AgentsReadyEn(s) \/ InitEndEn(s)
+    \/ InitLockEn(s) \/ CreateExtEn(s) \/ LaunchExtEn(s) \/ LaunchRuntimeEn(s) \/ AfterRuntimeReadyEn(s) \/ AgentsReadyEn(s) \/ InitEndEn(s)
     \/ InvokeLockEn(s) \/ InvokeInitFailedEn(s) \/ DispatchEn(s) \/ AwaitResponseEn(s)
     \/ AwaitRuntimeBackEn(s) \/ AwaitAgentsBackEn(s) \/ InvokeReturnEn(s)
     \/ \E k \in DOMAIN s.iv :
